@@ -89,6 +89,12 @@ func (d *DA) Submit(ctx context.Context, blobs []coreda.Blob, gp float64, ns []b
 	return d.SubmitWithOptions(ctx, blobs, gp, ns, nil)
 }
 
+// TextError is an error that carries a message only (it wraps nothing): what a DA reached through an RPC proxy returns
+// for the server's sentinel errors.
+type TextError string
+
+func (e TextError) Error() string { return string(e) }
+
 func (d *DA) GetIDs(_ context.Context, height uint64, _ []byte) (*coreda.GetIDsResult, error) {
 	d.mu.Lock()
 	defer d.mu.Unlock()
@@ -118,7 +124,13 @@ func (d *DA) GetIDs(_ context.Context, height uint64, _ []byte) (*coreda.GetIDsR
 		return nil, errors.New("rpc failure while listing")
 	case out == "notfound":
 		return nil, coreda.ErrBlobNotFound
+	case out == "notfoundtext":
+		// what arrives through a JSON-RPC proxy: the server's message only, the sentinel is not in the error chain
+		return nil, TextError("rpc error: code = Unknown desc = " + coreda.ErrBlobNotFound.Error() + " at this height")
+	case out == "futuretext":
+		return nil, TextError(fmt.Sprintf("rpc error: code = Unknown desc = %s: requested %d", coreda.ErrHeightFromFuture.Error(), height))
 	case strings.HasPrefix(out, "errget"):
+		d.failText = strings.HasPrefix(out, "errgettext")
 		d.failChunk = 0
 		if i := strings.IndexByte(out, ':'); i > 0 {
 			d.failChunk, _ = strconv.Atoi(out[i+1:])
@@ -153,6 +165,10 @@ func (d *DA) Get(_ context.Context, ids []coreda.ID, _ []byte) ([]coreda.Blob, e
 	_ = chunk
 	if d.failGet && first/100 == d.failChunk {
 		d.failGet = false
+		if d.failText {
+			d.failText = false
+			return nil, TextError("rpc error: code = Unknown desc = " + coreda.ErrHeightFromFuture.Error())
+		}
 		switch len(d.FetchLog) % 3 {
 		case 1:
 			return nil, coreda.ErrContextDeadline
